@@ -16,12 +16,17 @@
       operator = the specification operator (except rem_s at (MIN,-1), finding F3);
     - [compile_straightline_correct_partial]: the simulation for straight-line code of any length
       (all opcodes without control flow except rem_s).
-    NOT proved (correspondence-only, see design/C01.md): [compile_correct] for control flow
-    (block/loop/if/br/br_table/return/call). *)
+    - [compile_block_correct_partial]: the simulation for whole function bodies built from the
+      constructs accepted by [blocks_ok]: straight-line code, result-less block / if / if-else entered at
+      an empty operand stack, br (last in its body) and br_if to result-less labels, any nesting depth;
+      jump targets are read from the back-patched final code.
+    NOT proved (correspondence-only, see design/C01.md): loops, calls, br_table, return, values carried
+    through [end] / [br] (block results), blocks entered with operands below them. *)
 From Coq Require Import ZArith NArith List Bool.
 From CB Require Import Common.IntN Common.IntNProofs Wasm.Syntax Wasm.SyntaxProofs Wasm.Sem Wasm.SemProofs
      Wasm.Compile Wasm.Machine Wasm.KnownClasses Wasm.Engine Wasm.Witnesses Wasm.EngineProofs Wasm.NumOpsProofs
-     Wasm.MachineLemmas Wasm.CompileLemmas Wasm.StraightProofs Wasm.StraightExample.
+     Wasm.MachineLemmas Wasm.CompileLemmas Wasm.StraightProofs Wasm.StraightExample
+     Wasm.BlockSim Wasm.BlockTheorem Wasm.BlockExample.
 From Coq Require Import FMapPositive.
 Import ListNotations.
 Local Open Scope Z_scope.
@@ -277,6 +282,62 @@ Example straightline_memory_nonvacuous :
        /\ c_next sf < 2147483648 /\ Z.of_nat (length (c_consts sf)) < 2147483648.
 Proof. exact ex_straight_mem. Qed.
 Print Assumptions straightline_memory_nonvacuous.
+
+(** ** Stage B: structured control without loops and calls.
+    For a function without result whose body [is] consists of the constructs accepted by [blocks_ok]
+    ([Wasm/BlockSim.v], [ctl_ok]: instructions accepted by [straight_ok] with local indices below [nl];
+    [block] and [if] / [if-else] without result type, entered when the operand stack is empty;
+    [br l] as the last instruction of its body and [br_if l], all labels being result-less - so neither
+    KF-C01-1 (br_if carrying a value) nor KF-C01-2 (local.set below an open conditional region with the
+    local on the stack) can occur, which is what [~ KnownClass] would exclude), compiled by
+    [compile_ops] from the function-entry state including the final [end] (which back-patches the jumps
+    to the function label), the machine started at pc 0 in a state related to the specification state:
+    - reaches the position after the compiled body (where [Module::compile] puts the final Return)
+      in a state related to the specification's final state whenever the reference interpreter
+      finishes the body (normally or by a branch to the function label) - every jump went to the
+      instruction after the matching [end] / at the start of the else branch;
+    - traps whenever the reference interpreter traps;
+    - and the reference interpreter never branches out of the body.
+    Out-of-fuel and stuck (ill-typed) runs of the interpreter are not constrained. *)
+Theorem compile_block_correct_partial :
+  forall (art : artifact) (mhost : nat -> list Z -> option (option Z)) (cap : N)
+         (host : nat -> list val -> option memory -> host_result) (m : module) (cx : cctx)
+         (is : list instr) (nl next : Z) (v' : vstate) (sF : cstate) (rest_code : list N),
+    blocks_ok nl cx is = true -> 0 <= nl <= next ->
+    compile_ops cx (flatten_body is) (init_vstate None) (init_fstate next) = Some (v', sF) ->
+    c_next sF < 2147483648 -> Z.of_nat (length (c_consts sF)) < 2147483648 ->
+    Z.of_nat (length (c_out sF ++ rest_code)) < 4294967296 ->
+    forall (codes : list (code_map * list Z)) (fidx : nat),
+      nth_error codes fidx
+        = Some (build_code (c_out sF ++ rest_code) xH (PositiveMap.empty N), map fst (c_consts sF)) ->
+      forall (st : store) (locals : list val) (M : mstate) (fuel : nat),
+        rel art fidx (map fst (c_consts sF)) nl (c_next sF) cap (init_fstate next) st locals [] M ->
+        match exec_instr host cap m fuel st locals [] (Block None is) with
+        | RNormal st' l' vs' =>
+            vs' = [] /\ exists n M', nsteps art mhost codes n M = SNext M'
+                       /\ rel art fidx (map fst (c_consts sF)) nl (c_next sF) cap sF st' l' [] M' /\ frame_eq M M'
+        | RTrap => exists n e, nsteps art mhost codes n M = STrap e
+        | RBr _ _ _ _ => False
+        | _ => True
+        end.
+Proof. exact compile_block_correct. Qed.
+Print Assumptions compile_block_correct_partial.
+
+(** non-vacuity: two nested blocks, a br_if out of both, an if/else whose then-branch ends with a br
+    out of the if and both blocks, a one-armed if; the hypotheses hold and three runs of the reference
+    interpreter end normally through three different paths *)
+Example blocks_nonvacuous :
+  blocks_ok 2 blk_cx blk_body = true
+  /\ (exists v' sF, compile_ops blk_cx (flatten_body blk_body) (init_vstate None) (init_fstate 2) = Some (v', sF)
+       /\ c_bp sF = [] /\ c_stack sF = []
+       /\ c_next sF < 2147483648 /\ Z.of_nat (length (c_consts sF)) < 2147483648
+       /\ Z.of_nat (length (c_out sF ++ [IReturn])) < 4294967296)
+  /\ (forall host cap m st,
+        exec_instr host cap m 30 st [VI32 0; VI32 1] [] (Block None blk_body) = RNormal st [VI32 7; VI32 5] []
+        /\ exec_instr host cap m 30 st [VI32 0; VI32 0] [] (Block None blk_body) = RNormal st [VI32 3; VI32 5] []
+        /\ exec_instr host cap m 30 st [VI32 4; VI32 0] [] (Block None blk_body) = RNormal st [VI32 4; VI32 0] []).
+Proof. exact ex_blocks. Qed.
+Print Assumptions blocks_nonvacuous.
 
 (** non-vacuity: a module outside the classes on which specification and engine model agree *)
 Example outside_classes_agree :
